@@ -1,4 +1,5 @@
 import RedisVerif.Lemmas.RedisStr
+import RedisVerif.Lemmas.RedisList
 
 /-! Dispatcher lemmas: the per-command lemmas lifted to `exec` / `step`. -/
 namespace RedisVerif.Redis
@@ -42,6 +43,17 @@ theorem inv_exec {s : State} (h : Inv s) (now : Nat) (c : Cmd) : Inv (exec s now
   case expiretime k => exact h
   case pexpiretime k => exact h
   case persist k => exact inv_execPersist h ..
+  case lpush k vs => exact inv_execPush h ..
+  case rpush k vs => exact inv_execPush h ..
+  case lpop k => exact inv_execPop h ..
+  case rpop k => exact inv_execPop h ..
+  case llen k => rw [execLLen_ro]; exact h
+  case lindex k i => rw [execLIndex_ro]; exact h
+  case lrange k a b => rw [execLRange_ro]; exact h
+  case lset k i v => exact inv_execLSet h ..
+  case ltrim k a b => exact inv_execLTrim h ..
+  case rpoplpush a b => exact inv_execLMove h ..
+  case lmove a b f t => exact inv_execLMove h ..
 
 theorem ttlReply_not_err (s : State) (k : Nat) (f : Nat → Nat) : (ttlReply s k f).isError = false := by
   unfold ttlReply
@@ -89,6 +101,17 @@ theorem exec_err {s : State} {now : Nat} {c : Cmd} (he : (exec s now c).2.isErro
   case expiretime k => rfl
   case pexpiretime k => rfl
   case persist k => exact execPersist_err he
+  case lpush k vs => exact execPush_err he
+  case rpush k vs => exact execPush_err he
+  case lpop k => exact execPop_err he
+  case rpop k => exact execPop_err he
+  case llen k => exact execLLen_ro ..
+  case lindex k i => exact execLIndex_ro ..
+  case lrange k a b => exact execLRange_ro ..
+  case lset k i v => exact execLSet_err he
+  case ltrim k a b => exact execLTrim_err he
+  case rpoplpush a b => exact execLMove_err he
+  case lmove a b f t => exact execLMove_err he
 
 /-- a command classified read-only returns the state it was given -/
 theorem exec_ro {s : State} {now : Nat} {c : Cmd} (hr : isReadOnly c = true) :
@@ -107,6 +130,9 @@ theorem exec_ro {s : State} {now : Nat} {c : Cmd} (hr : isReadOnly c = true) :
   case pttl k => rfl
   case expiretime k => rfl
   case pexpiretime k => rfl
+  case llen k => exact execLLen_ro ..
+  case lindex k i => exact execLIndex_ro ..
+  case lrange k a b => exact execLRange_ro ..
   all_goals cases hr
 
 theorem purge_purge_le (s : State) {now t : Nat} (h : now ≤ t) :
